@@ -58,6 +58,14 @@ func (g *ExprGen) Scalar(depth int) Expr {
 	return g.Gen(TNum, depth)
 }
 
+// divisor is the literal n, one time in four negated.
+func (g *ExprGen) divisor(n string) Expr {
+	if g.R.Intn(4) == 0 {
+		return &EGroup{&EUn{"-", &ENum{n}}}
+	}
+	return &ENum{n}
+}
+
 // Gen returns an expression of type t with at most the given depth.
 func (g *ExprGen) Gen(t Type, depth int) Expr {
 	r := g.R
@@ -77,11 +85,11 @@ func (g *ExprGen) Gen(t Type, depth int) Expr {
 		case 4:
 			return &EBin{"*", g.Gen(TNum, d), g.Gen(TNum, d)}
 		case 5:
-			return &EBin{"/", g.Gen(TNum, d), &ENum{[]string{"1", "2", "4", "8"}[r.Intn(4)]}}
+			return &EBin{"/", g.Gen(TNum, d), g.divisor([]string{"1", "2", "4", "8"}[r.Intn(4)])}
 		case 6:
-			return &EBin{"//", g.Gen(TNum, d), &ENum{strconv.Itoa(1 + r.Intn(7))}}
+			return &EBin{"//", g.Gen(TNum, d), g.divisor(strconv.Itoa(1 + r.Intn(7)))}
 		case 7:
-			return &EBin{"%", g.Gen(TNum, d), &ENum{strconv.Itoa(1 + r.Intn(7))}}
+			return &EBin{"%", g.Gen(TNum, d), g.divisor(strconv.Itoa(1 + r.Intn(7)))}
 		case 8:
 			return &EBin{"**", &ENum{strconv.Itoa(r.Intn(5))}, &ENum{strconv.Itoa(r.Intn(4))}}
 		case 9:
@@ -90,7 +98,8 @@ func (g *ExprGen) Gen(t Type, depth int) Expr {
 			return &EUn{"+", g.Gen(TNum, d)}
 		case 11:
 			ops := []string{"b-and", "b-or", "b-xor"}
-			return &EBin{ops[r.Intn(3)], &ENum{strconv.Itoa(r.Intn(64))}, &ENum{strconv.Itoa(r.Intn(64))}}
+			lim := []int{64, 64, 1024, 200000}[r.Intn(4)]
+			return &EBin{ops[r.Intn(3)], &ENum{strconv.Itoa(r.Intn(lim))}, &ENum{strconv.Itoa(r.Intn(lim))}}
 		case 12:
 			return &ETern{g.Gen(TBool, d), g.Gen(TNum, d), g.Gen(TNum, d)}
 		case 13:
